@@ -32,7 +32,7 @@ import os
 import random
 
 from harness import tlc
-from harness.framework import run_check, MachineryError, VERIF
+from harness.framework import run_check, VERIF
 
 SPEC = os.path.join(VERIF, 'specs', 'Requests')
 INVS = ['TypeOK', 'MatchOwn', 'ResultRight', 'OneReplyEach', 'RepliesInOrder',
